@@ -349,17 +349,46 @@ From MW Require Import Model.VmBase Model.Compile.
 
 Definition quote_of (d : cell) : cell := new_list [CSym QUOTE; d].
 
-Lemma compile_quote_form f l tail d :
+(* compile.rs is_datum (the repair of finding eval-object-in-constant): exactly the data that
+   have a heap representation pass the test of compile_quote *)
+Lemma heap_datum_is_datum d : heap_datum d -> cell_is_datum d = true.
+Proof.
+  induction d as [c Hnp Hnv|ca cd IHa IHd|l HF] using cell_ind2; intros H.
+  - destruct c; try reflexivity; try (exfalso; exact H).
+    + exfalso. now apply (Hnp c1 c2).
+    + exfalso. now apply (Hnv l).
+  - destruct H as [Ha Hd]. cbn [cell_is_datum]. rewrite (IHa Ha), (IHd Hd). reflexivity.
+  - apply heap_datum_vec in H. cbn [cell_is_datum]. apply forallb_forall. intros x Hx.
+    rewrite Forall_forall in HF, H. apply (HF x Hx), (H x Hx).
+Qed.
+Lemma is_datum_heap_datum d : cell_is_datum d = true -> heap_datum d.
+Proof.
+  induction d as [c Hnp Hnv|ca cd IHa IHd|l HF] using cell_ind2; intros H.
+  - destruct c; try exact I; try discriminate H.
+    + exfalso. now apply (Hnp c1 c2).
+    + exfalso. now apply (Hnv l).
+  - cbn [cell_is_datum] in H. apply andb_prop in H. destruct H as [Ha Hd].
+    split; [apply IHa, Ha|apply IHd, Hd].
+  - apply heap_datum_vec. cbn [cell_is_datum] in H. rewrite forallb_forall in H.
+    rewrite Forall_forall in *. intros x Hx. apply (HF x Hx), (H x Hx).
+Qed.
+
+Lemma compile_quote_form f l tail d : heap_datum d ->
   compile_expression (S f) l tail (quote_of d) =
   (dom v <- maybe_put_cell_m d; ret (emit (emit (emit_op l OMovImmediate) v) VAcc)).
-Proof. reflexivity. Qed.
+Proof.
+  intros Hd. change (compile_expression (S f) l tail (quote_of d)) with
+    (if negb (cell_is_datum d) then fail E_OTHER else
+     dom v <- maybe_put_cell_m d; ret (emit (emit (emit_op l OMovImmediate) v) VAcc)).
+  rewrite (heap_datum_is_datum d Hd). reflexivity.
+Qed.
 
 Theorem compile_quote_reads (bname : N -> text) f l tail d (s : vm) : heap_datum d -> heap_inv (hp s) ->
   exists v s', compile_expression (S f) l tail (quote_of d) s
                  = ROk (emit (emit (emit_op l OMovImmediate) v) VAcc) s' /\
     heap_inv (hp s') /\ reads bname v d (hp s') (st s').
 Proof.
-  intros Hd HI. rewrite compile_quote_form.
+  intros Hd HI. rewrite (compile_quote_form _ _ _ _ Hd).
   destruct (maybe_put_cell_reads bname d Hd (hp s) (st s) HI) as (v & h1 & s1 & E & HI1 & _ & R).
   exists v, (with_store (with_heap s h1) s1). split; [|split; [exact HI1|exact R]].
   unfold bindM, maybe_put_cell_m. rewrite E. reflexivity.
